@@ -213,6 +213,8 @@ class Interp:
             return SRec({k: self.ite(c, a.fields[k], b.fields[k]) for k in a.fields}, a.kind)
         if isinstance(a, tuple) and isinstance(b, tuple) and len(a) == len(b):
             return tuple(self.ite(c, x, y) for x, y in zip(a, b))
+        if isinstance(a, SObj) and isinstance(b, SObj) and a.cls == b.cls and set(a.attrs) == set(b.attrs):
+            return SObj(a.cls, {k: self.ite(c, a.attrs[k], b.attrs[k]) for k in a.attrs})
         if a is b:
             return a
         try:
